@@ -68,4 +68,26 @@ def handle (args : List String) : String :=
   | [h] => match ofHex h with | none => "bad-hex" | some bs => "M " ++ readRecords bs
   | _ => "bad-op"
 
+/-- `mrgb <offset> <hex of an input file>`: the blocks `cdns-merge` writes for this input when its parameter sets were appended to
+    the output preamble at `offset`: every block read (`ofVal`), re-written with `toVal` under index `offset + old index`
+    (`Props.C18.merged_block_same_records` is about exactly this value); item-less blocks are not written.
+    answer: M <hex>,<hex>,… | E -/
+def handleMrgb (args : List String) : String :=
+  match args with
+  | [o, h] =>
+    match o.toNat?, ofHex h with
+    | some off, some bs =>
+      let fuel := 4 * bs.length + 10
+      match (readFile fuel).run bs with
+      | .ok ((pv, .list blocks), []) =>
+        let rates := ratesOf pv
+        let outs := blocks.map fun v =>
+          match ofVal rates v with
+          | .ok rb => some (if itemCount rb.blk = 0 then "" else toHex (writeBytes block (toVal rb.blk (some (off + rb.pi.getD 0)) rb.tps)))
+          | .error _ => none
+        if outs.all Option.isSome then "M " ++ ",".intercalate ((outs.filterMap id).filter (· ≠ "")) else "E"
+      | _ => "E"
+    | _, _ => "bad-args"
+  | _ => "bad-op"
+
 end CdnsVerif.Driver.Rdq
